@@ -315,8 +315,11 @@ def _phase(arg):
                 np.random.seed((trace['env_seed'] + 17 * op[1]) & 0x7FFFFFFF)
                 s = sel.EncoderSelector(settings)
                 mgr = s.get_best_assignment_manager(cache=op[2], limit_time=op[4] if len(op) > 4 else True)
-                rec['obs'] = obs_manager(mgr, exist, trace['env_seed'])
                 rec['calls'] = list(simenv.State.calls)
+                if not hasattr(mgr, 'design_vars') or not hasattr(mgr, 'get_matrix'):
+                    rec['not_a_manager'] = repr(mgr)[:120]
+                else:
+                    rec['obs'] = obs_manager(mgr, exist, trace['env_seed'])
             elif kind == 'agg':
                 spec = trace['settings'][op[1]]
                 settings, exist = gen_settings.build(spec)
@@ -534,6 +537,9 @@ def _judge(trace, pi, oi, rec, log, stats, tainted, cold_dir, env):
                 msg += ':no-candidate-left'
             raise Viol(f'C12/select-raises/{rec["exc"][0]}:{msg}@{rec["exc"][2]}',
                        f'{where}: settings {spec}: {rec["exc"]}; limited calls {[(c[1], c[3]) for c in rec["calls"]]}')
+        if 'not_a_manager' in rec:
+            raise Viol('C12/select-returns-no-manager', f'{where}: settings {spec}: get_best_assignment_manager returned '
+                                                        f'{rec["not_a_manager"]}' + (' from the cache' if not rec['calls'] else ''))
         stats['selections'] += 1
         if not rec['calls']:
             stats['probe:cache_hit'] += 1
